@@ -355,6 +355,7 @@ class Interp:
         self.block_states = {}  # bb -> list of entry states
         self.final_states = []  # states at `return`
         self.backedge_states = {}  # head -> list of states arriving over a back edge
+        self.loop_entry = {}  # head -> list of environments on entry from outside (before havoc)
         self.diverged = []  # states that ended in a call without target / unreachable
         self.nstates = 0
         self.extra_axioms = axioms or {}
@@ -393,7 +394,8 @@ class Interp:
                 locs.add(t["dest"]["l"])
                 if any(e[0] == "deref" for e in t["dest"]["p"]):
                     mem = True
-                mem = True  # conservatively: any call in a loop may write memory
+                if t["target"] is not None and not self._static_pure(t):
+                    mem = True  # conservatively: a call that is not known pure may write memory
             elif t["k"] == "asm":
                 mem = True
                 for o in t["operands"]:
@@ -404,6 +406,24 @@ class Interp:
         if mem:
             locs |= self.addr_taken_mut
         return (locs, mem)
+
+    def _static_pure(self, t):
+        """pre-pass approximation of `call` purity (no state available yet)"""
+        fn = t["fn"]
+        if "indirect" in fn:
+            return False
+        gpath, rpath, trait, name = fn_names(fn)
+        for k in (rpath, gpath, (trait, name) if trait else None):
+            if k is not None and (k in AXIOMS or k in self.extra_axioms):
+                if k in (("std::iter::Iterator", "next"),):
+                    # a range iterator does not touch memory; other iterators are handled by the call itself
+                    aty = effects._op_ty(self.body, t["args"][0]) if t["args"] else ""
+                    return "Range" in aty
+                return name not in ("swap", "replace", "take")
+        if self.is_pure(fn):
+            return True
+        argtys = [effects._op_ty(self.body, a) for a in t["args"]]
+        return effects.call_is_pure(fn, argtys, getattr(self.body.crate, "program", None))
 
     # ---- evaluation ----------------------------------------------------------------------------
     def initial_state(self):
@@ -424,6 +444,8 @@ class Interp:
         k = pl[0]
         if k == "local":
             return self.read_local(st, pl[1])
+        if k == "constval":
+            return pl[1]
         if place_is_local(pl):
             base = self.read_pl(st, pl[1])
             if k == "field":
@@ -533,6 +555,8 @@ class Interp:
         if "fn" in o:
             fn = o["fn"]
             return ("fnitem", fn["def"], fn.get("path"), tuple(fn.get("args", ())))
+        if "deref_val" in o:
+            return ("ref", ("constval", mk_int(o["deref_val"])))
         if "val" in o:
             v = o["val"]
             if isinstance(v, str):
@@ -749,6 +773,7 @@ class Interp:
                     self.backedge_states.setdefault(bb, []).append(st)
                     continue
                 locs, mem = self.loop_mod[bb]
+                self.loop_entry.setdefault(bb, []).append(dict(st.env))
                 for l in locs:
                     if l in st.env:
                         if st.env[l][0] == "rangeiter":
